@@ -298,6 +298,22 @@ func (e *specEnv) callExpr(n *ECall, hint types.Type) sv {
 			sfail("lastarg: no recorded argument %s of %s (is it called in this function?)", ii.Val, id.Name)
 		}
 	}
+	if n.Fun == "samearray" {
+		// samearray(a, b): the two slices view the same backing array
+		argn(2)
+		a := e.eval(n.Args[0], nil)
+		b := e.eval(n.Args[1], a.typ)
+		if a.typ == nil || b.typ == nil {
+			sfail("samearray(a, b) needs two slices")
+		}
+		if _, ok := a.typ.Underlying().(*types.Slice); !ok {
+			sfail("samearray(a, b) needs two slices")
+		}
+		if _, ok := b.typ.Underlying().(*types.Slice); !ok {
+			sfail("samearray(a, b) needs two slices")
+		}
+		return sv{Val: Val{t: fmt.Sprintf("(= (s_ref %s) (s_ref %s))", e.term(a, a.typ), e.term(b, b.typ)), typ: tBool}}
+	}
 	if n.Fun == "dyn" || n.Fun == "isdyn" {
 		// dyn(x, T): the value of dynamic type T that the interface value x holds (what x.(T) yields
 		// when it succeeds); isdyn(x, T): x holds a value of dynamic type T
